@@ -2,6 +2,7 @@
 // clock, console stream, file layer, rand, setjmp/longjmp counting wrappers.
 #ifndef VERIF_SEAMS_H
 #define VERIF_SEAMS_H
+#include <errno.h>
 #include "base.h"
 #include "CppUTest/TestHarness.h"
 #include "CppUTest/PlatformSpecificFunctions.h"
@@ -40,8 +41,9 @@ struct SimIO {
     Str console;                 // everything written to PlatformSpecificStdOut
     Vec<SimFile*> files;         // every fopen creates a new record (re-opening the same name too)
     uint64_t flushes, seq, writesAfterClose, badHandle;
+    int errnoNoise;              // non-zero: every console write and flush leaves this value in errno (a successful call may change errno; a failing write does)
     void (*flushHook)();         // called on every PlatformSpecificFlush (runsim: a forked child hands its flushed console bytes to the parent)
-    SimIO() : flushes(0), seq(0), writesAfterClose(0), badHandle(0), flushHook(0) {}
+    SimIO() : flushes(0), seq(0), writesAfterClose(0), badHandle(0), errnoNoise(0), flushHook(0) {}
     void reset() {
         console.clear();
         for (size_t i = 0; i < files.size(); i++) { files[i]->~SimFile(); ::free(files[i]); }
@@ -60,7 +62,7 @@ inline PlatformSpecificFile simFOpen(const char* name, const char* mode) {
 }
 inline void simFPuts(const char* s, PlatformSpecificFile file) {
     SimIO& io = simIO();
-    if (file == (PlatformSpecificFile)&simStdoutTag) { io.console += s; return; }
+    if (file == (PlatformSpecificFile)&simStdoutTag) { io.console += s; if (io.errnoNoise) errno = io.errnoNoise; return; }
     for (size_t i = 0; i < io.files.size(); i++) if ((PlatformSpecificFile)io.files[i] == file) {
         if (!io.files[i]->open) io.writesAfterClose++;
         io.files[i]->data += s; return;
@@ -72,7 +74,7 @@ inline void simFClose(PlatformSpecificFile file) {
     for (size_t i = 0; i < io.files.size(); i++) if ((PlatformSpecificFile)io.files[i] == file) { io.files[i]->open = false; io.files[i]->closes++; return; }
     io.badHandle++;
 }
-inline void simFlush() { simIO().flushes++; if (simIO().flushHook) simIO().flushHook(); }
+inline void simFlush() { simIO().flushes++; if (simIO().flushHook) simIO().flushHook(); if (simIO().errnoNoise) errno = simIO().errnoNoise; }
 
 // ------------------------------------------------------------------ rand
 struct SimRand {
